@@ -954,7 +954,9 @@ func opReferenceChangeJournal(ctx context.Context, pc *uint64, interpreter *EVMI
 	unmask := func(rawData []byte, length uint64) []byte {
 		data := new(uint256.Int).SetBytes(rawData)
 		mask := new(uint256.Int).Add(storageMask, zero)
-		ret := data.And(data, mask.Not(mask)).Bytes()
+		// keep the full 32-byte word: Bytes() would strip leading zero bytes, which
+		// are part of a short string's content (and make the slicing below panic)
+		ret := data.And(data, mask.Not(mask)).Bytes32()
 		return ret[:]
 	}
 
